@@ -191,6 +191,10 @@ def _builtin(ex, name, args, kwargs, st, node):
         # stdlib contract (assumed): getattr(operator, name, default) is the operator module's attribute of that name when it has
         # one -- opfun(name) != None -- and the default otherwise
         d = args[2]
+        # the operator module's attributes are functions: truthy objects (``getattr(operator, name, None) or ...`` is an equivalent spelling)
+        st.assume(z3.Implies(opfun(args[1].z) != smt.NONE, smt.truthy_obj(opfun(args[1].z))))
+        if isinstance(d, SV) and d.z.eq(smt.NONE):
+            return ex.ok(SV(TRefT(None, True), opfun(args[1].z)), st)
         if isinstance(d, SV) and isinstance(d.td, TRefT):
             return ex.ok(SV(TRefT(None, True), z3.If(opfun(args[1].z) != smt.NONE, opfun(args[1].z), d.z)), st)
         return ex.ok(SV(TRefT(None, True), opfun(args[1].z)), st)
